@@ -4,8 +4,17 @@ PROPS_ENTRY = {
  'models': ['Model/ConnMgr.v', 'Model/ConnMgrSpec.v', 'Model/Queue.v', 'Model/Owning.v'],
  'design_ref': 'DESIGN.md 3 C18',
  'assumptions': [
-     'the tx virtqueue accepts every packet (add_notify_wait_pop returns Ok): a packet handed to it is an output event (header, payload) of the model; the tx queue itself is '
-     'C03/C05 territory. With a device that never completes tx chains the calls do not return (the harness reports that as a hang)',
+     'a packet handed to the tx virtqueue is an output event (header, payload) of the model; the tx queue itself is C03/C05 territory. cm_step (C18_refines ...) takes '
+     'add_notify_wait_pop to return Ok; cm_step_tx (C18_txfail_*) takes its outcome as an INPUT - Ok, `add` failed (nothing published), `pop_used` failed (published and seen by '
+     'the device), with any error code, separately for a header-only packet and one with a payload (one and two descriptors) - and follows the `?` of every call site. No '
+     'operation sends more than one packet. Which outcomes a queue can actually produce (WrongToken when the device completes another id; then, because the chain stays '
+     'allocated and the used element unconsumed, WrongToken for every later transmission unless the stale id happens to name the next chain, and QueueFull once the 8 '
+     'descriptors are used up - through the manager QueueFull is reachable ONLY this way, since every transmission waits for its completion) is reproduced by the reference '
+     'device of the harness, whose books predict the fate of every transmission before the call. With a device that never completes tx chains the calls do not return (the '
+     'harness reports that as a hang)',
+     'under failure the specification (sp_step_tx) withholds the effect of the operation and passes the error on; for a packet whose reply cannot be sent it keeps what the '
+     'packet says about the peer (flow-control fields; a shutdown). The code as it stands deviates at four points (C18_*_refuted, observations C18-txfail-A..D: recorded, not claimed as violations of C18, because a transmission fails only when the TX device breaks the protocol, which is outside the quantifier of C18): C18_txfail_refines '
+     'and C18_txfail_atomic except exactly those (tx_open_point), C18_txfail_code_refines states what the code does there, C18_txfail_isolation / _keys_unique hold everywhere',
      'rx side: C18_buffer_returned / C18_poll_returns_buffer assume a device that names a valid token (used id < 8) on a queue that is fully stocked (Reach + Stocked of C19); an '
      'oversized used length is covered (IoError, buffer re-posted) since the repair f6bad98',
      'credit arithmetic is property C17: the five counters are plain fields updated as the code updates them (plain + and - : overflow PANIC in the debug profile, wrapping in '
@@ -20,7 +29,11 @@ PROPS_ENTRY = {
      '"the table sorted by key" means on the implementation side: peer_requested_shutdown and the counters are observed only through later packets, errors and results',
      'the 44-byte header layout is transcribed once (encode_hdr / decode_hdr, C18_header_roundtrip) and tied to zerocopy\'s layout only by the byte-exact comparison of every '
      'packet in both directions',
-     'no hook and no change of the crate was needed: the harness is built against /repo as it is']}
+     'no hook and no change of the crate was needed: the harness is built against /repo as it is',
+     'the books the reference tx device keeps of the driver side of the tx queue (descriptors never recycled, used elements consumed, free list in ascending order): they '
+     'PREDICT the fate of each transmission before the call (the model input); the harness checks after each operation that the chain was published under the predicted head and '
+     'fared as predicted, and reports a violation otherwise. OPEN_FINDINGS in c18.rs keeps the random histories and the directed failure scripts from failing a transmission at '
+     'the four open points (each has its own scenario c18-finding-*, run only with VERIF_C18_OBSERVATIONS=1; proposed repairs in corpus/proposals/); with the four repairs applied and the switch off, all monitors pass with failures at every point']}
 
 SPEC_ENTRY = {
  'title': 'Socket connection state follows the protocol and connections are isolated',
@@ -76,6 +89,41 @@ SPEC_ENTRY = {
    '... instantiated with the connection manager\'s packet handler: the manager\'s result is cm_poll\'s and the rx queue is fully stocked after every poll, whatever the packet'),
   ('C18_poll_no_panic', 'Proofs/ConnMgrProofs.v', 'poll_no_panic', 'poll never panics (so the "handler panics -> buffer lost" path of OwningQueue::poll is not taken)'),
   ('C18_header_roundtrip', 'Proofs/ConnMgrProofs.v', 'decode_encode_hdr', 'the 44-byte little-endian header: decoding an encoded header gives it back'),
+  # ---- transmissions that fail ----
+  ('C18_txfail_ok_same', 'Proofs/ConnMgrProofs.v', 'cm_step_tx_ok',
+   'the model with the outcome of the transmission as an input IS the old model when the transmission succeeds (the success paths are unchanged)'),
+  ('C18_txfail_spec_ok_same', 'Proofs/ConnMgrProofs.v', 'sp_step_tx_ok', None),
+  ('C18_txfail_refines', 'Proofs/ConnMgrProofs.v', 'step_tx_refines',
+   'MAIN under failure: for every state with unique keys standing for an abstract map, every operation, every packet, every outcome of the transmission (add failed / pop_used '
+   'failed, any error code, per packet shape), both profiles: result, packets seen by the device and successor state are those of the abstract map under failure (sp_step_tx: '
+   'effect withheld, error passed on) - unless the transmission fails at one of the four open points (tx_open_point: a data packet of send, the closing RST of recv, the '
+   'reply to a request for a NEW connection, the RST answering the shutdown of a drained connection)'),
+  ('C18_txfail_refines_history', 'Proofs/ConnMgrProofs.v', 'run_tx_refines', '... hence for every history in which no transmission fails at an open point'),
+  ('C18_txfail_code_refines', 'Proofs/ConnMgrProofs.v', 'step_tx_code_refines',
+   'what the code does at EVERY failure point, the open ones included, as an abstract rule (sp_step_txg true: tx_cnt already advanced; the drained bytes gone and the connection '
+   'kept; the connection pushed for a new request kept, not established; the peer shutdown not recorded)'),
+  ('C18_txfail_keys_unique', 'Proofs/ConnMgrProofs.v', 'keys_unique_tx', 'keys stay unique along every history, whatever fails wherever'),
+  ('C18_txfail_isolation', 'Proofs/ConnMgrProofs.v', 'isolation_tx',
+   'ISOLATION under failure, at every failure point (open ones included): a failure on the connection an operation or packet names changes nothing of any other connection'),
+  ('C18_txfail_connect', 'Proofs/ConnMgrProofs.v', 'connect_fail_no_connection',
+   'a connect whose REQUEST cannot be sent (any error, add or pop_used) leaves NO connection behind: the manager is exactly as before - nothing matches later packets, recv / '
+   'is_connection_established say NotConnected, the port is free, and the connect can be tried again (C18_connect_fresh applies to m\' = m). This is what seeded change C18-m11 breaks'),
+  ('C18_txfail_local', 'Proofs/ConnMgrProofs.v', 'local_fail_atomic',
+   'connect, update_credit, shutdown, force_close: when the transmission fails the manager is exactly as before (force_close does not remove the connection) and the result is the tx queue\'s error'),
+  ('C18_txfail_send_credit_request', 'Proofs/ConnMgrProofs.v', 'send_credit_request_fail',
+   'a send that finds no credit and cannot send its credit request: no request is marked pending, nothing changes'),
+  ('C18_txfail_atomic', 'Proofs/ConnMgrProofs.v', 'txfail_atomic',
+   'at every failure point but the four open ones: an error is returned, no entry appears or disappears, no flag, no buffered byte and nothing of OUR side of the flow control '
+   '(tx_cnt, fwd_cnt, buf_alloc, pending credit request) changes, the listening set is the same; a local operation changes nothing at all'),
+  ('C18_send_fail_keeps_credit_refuted', 'Proofs/ConnMgrProofs.v', 'send_fail_keeps_credit_refuted',
+   'OBSERVATION C18-txfail-A (the transactional reading is refuted on the code as it stands; needs a failing transmission): send adds the length to tx_cnt BEFORE the transmission: with QueueFull - not a byte has left - three bytes of the peer\'s credit are spent'),
+  ('C18_recv_fail_keeps_data_refuted', 'Proofs/ConnMgrProofs.v', 'recv_fail_keeps_data_refuted',
+   'OBSERVATION C18-txfail-B (needs a failing transmission): recv drains the buffer before the RST that closes a connection the peer has shut down: when the RST fails the call returns the error and the bytes are gone'),
+  ('C18_request_fail_no_entry_refuted', 'Proofs/ConnMgrProofs.v', 'request_fail_no_entry_refuted',
+   'OBSERVATION C18-txfail-C (needs a failing transmission): a request for a new connection whose RESPONSE / RST cannot be sent leaves the connection the closure pushed in the table (the same stale entry as seeded change C18-m11, on the accepting side)'),
+  ('C18_shutdown_fail_remembered_refuted', 'Proofs/ConnMgrProofs.v', 'shutdown_fail_remembered_refuted',
+   'OBSERVATION C18-txfail-D (needs a failing transmission): the peer\'s SHUTDOWN of a drained connection is forgotten when the RST cannot be sent: the connection is not marked and send still transmits'),
+  ('C18_txfail_refines_everywhere_refuted', 'Proofs/ConnMgrProofs.v', 'step_tx_refines_everywhere_refuted', 'hence C18_txfail_refines does not hold without its exception'),
  ],
  'examples': [
   'Example C18_step_refines_nonvacuous : KeysUnique ex_m /\\ R ex_m (abs ex_m).\nProof. exact step_refines_nonvacuous. Qed.',
@@ -83,5 +131,7 @@ SPEC_ENTRY = {
   'Example C18_nonvacuous : True.\nProof.\n  pose proof request_listening_nonvacuous. pose proof request_not_listening_nonvacuous. pose proof request_known_connection_nonvacuous.\n'
   '  pose proof unmatched_ignored_nonvacuous. pose proof malformed_rejected_nonvacuous. pose proof connect_exists_nonvacuous. pose proof connect_fresh_nonvacuous.\n'
   '  pose proof missing_not_connected_nonvacuous. pose proof peer_shutdown_nonvacuous. pose proof recv_spec_nonvacuous. pose proof data_delivered_nonvacuous.\n'
-  '  pose proof credit_packets_nonvacuous. pose proof isolation_nonvacuous. pose proof rx_buffer_returned_nonvacuous. exact I.\nQed.'],
+  '  pose proof credit_packets_nonvacuous. pose proof isolation_nonvacuous. pose proof rx_buffer_returned_nonvacuous. exact I.\nQed.',
+  'Example C18_txfail_nonvacuous : True.\nProof.\n  pose proof step_tx_refines_nonvacuous. pose proof connect_fail_nonvacuous. pose proof send_credit_request_fail_nonvacuous.\n'
+  '  pose proof tx_history_runs. exact I.\nQed.'],
 }
